@@ -13,7 +13,7 @@ RULE = ('programs: every depth-1 construct {IF/2, IF/3, IFS with 1, 2 and 3 pair
         '(thorough) = IF/3, IFS/2 pairs and IFERROR with one position replaced by any depth-2 nest, all over the leaf kinds '
         '{prime, failing}; every depth-1 nest in all '
         '10 contexts, deeper nests in a rotating context; conditions are distinct cells overridden with every assignment over '
-        '{TRUE, FALSE, 1, 0, blank} (<= 3 conditions) or every TRUE/FALSE assignment plus single 1 / 0 / blank deviations; '
+        '{TRUE, FALSE, 1, 0, blank, -1.5} (<= 3 conditions) or every TRUE/FALSE assignment plus single 1 / 0 / blank / -1.5 deviations; '
         'non-trivial = assignments under which an unchosen branch holds a failing or error leaf, or no IFS condition is true, or '
         'IFERROR meets an error')
 ASSUMPTIONS = ['conditions are booleans, numbers or blank (text conditions and error-valued conditions: statement silent)',
@@ -27,7 +27,7 @@ LEAF_KINDS_1 = ['P', 'F', 'E', 'A', 'I']   # depth-1 constructs also range over 
 CONTEXTS = ['{}', '1+{}', '{}+1', '2*{}', '-{}', '{}&"x"', '{}=3', 'SUM({},1)', 'IF({}>0,"P","N")', 'ROUND({},0)']
 CNAMES = ['bare', '1+n', 'n+1', '2*n', '-n', 'n&x', 'n=3', 'SUM(n,1)', 'IF(n>0)', 'ROUND(n,0)']
 COND_COLS = ['C', 'D', 'E', 'F', 'G', 'H', 'I', 'J', 'K', 'L', 'M', 'N']
-TRUTHS = [True, False, 1, 0, None]
+TRUTHS = [True, False, 1, 0, None, -1.5]
 
 # nest := ('L', kind) | ('IF', [v]) | ('IF', [v, w]) | ('IFS', [v...]) | ('IFERROR', [a, b])
 CONSTRUCTS = [('IF', 1), ('IF', 2), ('IFS', 1), ('IFS', 2), ('IFS', 3), ('IFERROR', 2)]
@@ -99,7 +99,7 @@ def assignments(k):
         return list(itertools.product(range(len(TRUTHS)), repeat=k))
     out = list(itertools.product((0, 1), repeat=k))
     for pos in range(k):
-        for dev in (2, 3, 4):
+        for dev in (2, 3, 4, 5):
             for other in (0, 1):
                 a = [other] * k
                 a[pos] = dev
